@@ -236,6 +236,9 @@ func canonKey(decl string, pkgPath string) string {
 			star = "*"
 			recv = recv[1:]
 		}
+		if recv == "error" { // the predeclared interface: (error).Error
+			return "(error)" + decl[i+1:]
+		}
 		return "(" + star + pkgPath + "." + recv + ")" + decl[i+1:]
 	}
 	if i := strings.Index(decl, ".("); i >= 0 {
